@@ -16,6 +16,7 @@ import (
 	"encoding/binary"
 	"fmt"
 	"os"
+	"runtime"
 	"sort"
 	"strings"
 	"time"
@@ -125,11 +126,29 @@ func waitUntil(what string, cond func() bool) bool {
 	}
 }
 
+// emptyRib removes every route through the RIB's own API.
+func emptyRib() {
+	for i := 0; i < 1000; i++ {
+		es := table.Rib.GetAllEntries()
+		if len(es) == 0 {
+			break
+		}
+		for _, e := range es {
+			for _, r := range append([]*table.Route{}, e.GetRoutes()...) {
+				table.Rib.RemoveRouteEnc(e.Name, r.FaceID, r.Origin)
+			}
+		}
+	}
+}
+
 func (w *world) teardown() {
 	if !w.up {
 		return
 	}
 	w.up = false
+	// The RIB is emptied first, from this goroutine, while everything is quiescent: face removal
+	// runs table.Rib.CleanUpFace on each face's own goroutine, and the RIB is not locked (C16).
+	emptyRib()
 	for _, h := range w.hooks {
 		id := h.ls.FaceID()
 		h.ls.Close()
@@ -148,18 +167,16 @@ func (w *world) teardown() {
 	w.fwt.TellToQuit()
 	<-w.fwt.HasQuit
 	core.ShouldQuit = false
-	// empty the RIB through its own API (routes to faces that never existed survive face clean-up)
-	for i := 0; i < 1000; i++ {
-		es := table.Rib.GetAllEntries()
-		if len(es) == 0 {
-			break
-		}
-		for _, e := range es {
-			for _, r := range append([]*table.Route{}, e.GetRoutes()...) {
-				table.Rib.RemoveRouteEnc(e.Name, r.FaceID, r.Origin)
-			}
-		}
-	}
+	// every goroutine of this history (faces, threads) has to be gone before the next one starts
+	// every goroutine of this history's faces and threads has to be gone before the next history
+	// starts (face removal ends with RIB/FIB clean-up on the face's own goroutine). PIT timer
+	// callbacks of the stopped forwarding thread may stay blocked for ever; they touch nothing.
+	waitUntil("goroutines gone", func() bool {
+		buf := make([]byte, 1<<18)
+		st := string(buf[:runtime.Stack(buf, true)])
+		return !strings.Contains(st, "fw/face.(*NDNLPLinkService)") && !strings.Contains(st, "fw/mgmt.(*Thread)") &&
+			!strings.Contains(st, "fw/fw.(*Thread)") && !strings.Contains(st, "fw/face.(*Table).Remove")
+	})
 }
 
 func (w *world) addHook(logical int, remote, local string, scope defn.Scope, localFields bool) {
